@@ -1,11 +1,11 @@
-\* C09 thorough: every tree of depth 2 over names {a,b} (3142 trees, all pairs), cases printed
+\* C09 thorough: every tree of depth 2 over names {a,b} with at most 5 entries, all pairs, cases printed
 CONSTANTS L = 1
  LOther = 1
  Slim = TRUE
  CheckFix = FALSE
  Bases = {}
  TreeDepth = 2
- TreeMaxEntries = 6
+ TreeMaxEntries = 5
  SimNames = 2
  SimDepth = 1
  Wanted = {}
